@@ -1,6 +1,7 @@
 package emit
 
 import (
+	"os"
 	"fmt"
 	"go/ast"
 	"go/constant"
@@ -73,6 +74,7 @@ type Outcome struct {
 	DC, DK    int
 	Ret       int8 // -1: no bool result, 0 false, 1 true
 	NeedGroup bool
+	Abs       bool // the callee emitted the line's opening brace: depth is absolute from here on
 }
 
 // Sink classification of one append site (provided by the sanitizer analysis).
@@ -120,6 +122,7 @@ type Interp struct {
 	Summaries  map[string][]Outcome
 	Visited    map[token.Pos]bool // append sites the interpreter executed abstractly
 	curFn      string
+	curEntry   string // "<function>|<entry state>|<boolean arguments>" of the summary being computed
 }
 
 func New(cfg Config) *Interp {
@@ -127,7 +130,11 @@ func New(cfg Config) *Interp {
 }
 
 func (it *Interp) problem(pos token.Pos, format string, a ...any) {
-	p := Problem{it.cfg.Pos(pos), fmt.Sprintf(format, a...), it.curFn}
+	msg := fmt.Sprintf(format, a...)
+	if it.curEntry != "" {
+		msg += " [summary of " + it.curEntry + "]"
+	}
+	p := Problem{it.cfg.Pos(pos), msg, it.curFn}
 	k := p.Pos + p.Msg
 	if !it.probSeen[k] {
 		it.probSeen[k] = true
@@ -447,6 +454,30 @@ func (it *Interp) evalBool(fc *fctx, e ast.Expr, st State) (val bool, known bool
 		v, k := it.evalBool(fc, u.X, st)
 		return !v, k
 	}
+	if pe, ok := e.(*ast.ParenExpr); ok {
+		return it.evalBool(fc, pe.X, st)
+	}
+	if b, ok := e.(*ast.BinaryExpr); ok && (b.Op == token.LOR || b.Op == token.LAND) {
+		// three-valued: a known operand may decide the result
+		lv, lk := it.evalBool(fc, b.X, st)
+		rv, rk := it.evalBool(fc, b.Y, st)
+		if b.Op == token.LOR {
+			switch {
+			case lk && lv, rk && rv:
+				return true, true
+			case lk && rk:
+				return false, true
+			}
+		} else {
+			switch {
+			case lk && !lv, rk && !rv:
+				return false, true
+			case lk && rk:
+				return true, true
+			}
+		}
+		return false, false
+	}
 	if b, ok := e.(*ast.BinaryExpr); ok && (b.Op == token.GTR || b.Op == token.EQL || b.Op == token.NEQ || b.Op == token.LSS) {
 		v, k := st.Env["pred:"+exprString(e)]
 		return v, k
@@ -622,7 +653,14 @@ func (it *Interp) stmt(fc *fctx, s ast.Stmt, in []State) flow {
 				}
 				fl.returns = append(fl.returns, retState{st, r})
 			} else {
-				fl.returns = append(fl.returns, retState{st, 0}, retState{st, 1})
+				// `return emitter(...)`, `return a || emitter(...)`: evaluated like a condition (the calls run, in order)
+				for _, f := range it.evalCond(fc, res, st) {
+					r := int8(0)
+					if f.Val {
+						r = 1
+					}
+					fl.returns = append(fl.returns, retState{f.St, r})
+				}
 			}
 		}
 		return fl
@@ -683,8 +721,8 @@ func (it *Interp) condWithPre(fc *fctx, cond ast.Expr, st State) []condFork {
 }
 
 func (it *Interp) forStmt(fc *fctx, x *ast.ForStmt, in []State) flow {
-	// counted loop over the handler's open-group counter: `for i := 0; i < X.open; i++ { … }`
-	if be, ok := x.Cond.(*ast.BinaryExpr); ok && be.Op == token.LSS && it.cfg.OpenField != nil && it.fieldOf(be.Y) == it.cfg.OpenField {
+	// counted loop over the handler's open-group counter: `for i := 0; i < X.open; i++ { … }` or counting down from it
+	if it.openCountLoop(x) {
 		fl := flow{}
 		for _, s0 := range in {
 			fl.normal = append(fl.normal, func() State { z := s0.clone(); z.NZero = true; z.G.K = 0; return z }())
@@ -722,6 +760,81 @@ func (it *Interp) forStmt(fc *fctx, x *ast.ForStmt, in []State) flow {
 		}
 	}
 	return it.loop(fc, x.Cond, x.Body, x.Post, in, names)
+}
+
+// openCountLoop: the loop runs exactly X.open times (X.open the handler's open-group counter) and its body does not
+// touch the loop variable: `for i := 0; i < X.open; i++`, `for n := X.open; n > 0; n--` (or `n != 0`).
+func (it *Interp) openCountLoop(x *ast.ForStmt) bool {
+	if it.cfg.OpenField == nil {
+		return false
+	}
+	be, ok := x.Cond.(*ast.BinaryExpr)
+	if !ok {
+		return false
+	}
+	as, ok := x.Init.(*ast.AssignStmt)
+	if !ok || len(as.Lhs) != 1 || len(as.Rhs) != 1 {
+		return false
+	}
+	v, ok := as.Lhs[0].(*ast.Ident)
+	if !ok {
+		return false
+	}
+	isVar := func(e ast.Expr) bool { id, ok := e.(*ast.Ident); return ok && id.Name == v.Name }
+	isConst := func(e ast.Expr, k int64) bool {
+		tv, ok := it.cfg.Info.Types[e]
+		if !ok || tv.Value == nil {
+			return false
+		}
+		n, exact := constant.Int64Val(constant.ToInt(tv.Value))
+		return exact && n == k
+	}
+	step := 0
+	switch p := x.Post.(type) {
+	case *ast.IncDecStmt:
+		if isVar(p.X) {
+			if p.Tok == token.INC {
+				step = 1
+			} else {
+				step = -1
+			}
+		}
+	case *ast.AssignStmt:
+		if len(p.Lhs) == 1 && len(p.Rhs) == 1 && isVar(p.Lhs[0]) && isConst(p.Rhs[0], 1) {
+			if p.Tok == token.ADD_ASSIGN {
+				step = 1
+			} else if p.Tok == token.SUB_ASSIGN {
+				step = -1
+			}
+		}
+	}
+	// the body must not assign the loop variable
+	touched := false
+	ast.Inspect(x.Body, func(n ast.Node) bool {
+		switch y := n.(type) {
+		case *ast.AssignStmt:
+			for _, l := range y.Lhs {
+				if isVar(l) {
+					touched = true
+				}
+			}
+		case *ast.IncDecStmt:
+			if isVar(y.X) {
+				touched = true
+			}
+		}
+		return true
+	})
+	if touched {
+		return false
+	}
+	switch {
+	case step == 1 && isConst(as.Rhs[0], 0) && be.Op == token.LSS && isVar(be.X) && it.fieldOf(be.Y) == it.cfg.OpenField:
+		return true
+	case step == -1 && it.fieldOf(as.Rhs[0]) == it.cfg.OpenField && isVar(be.X) && isConst(be.Y, 0) && (be.Op == token.GTR || be.Op == token.NEQ):
+		return true
+	}
+	return false
 }
 
 // loop: zero or more iterations, least fixpoint over the finite state set.
@@ -953,11 +1066,56 @@ func (it *Interp) assign(fc *fctx, x *ast.AssignStmt, in []State) []State {
 							if r.Ret >= 0 {
 								n.Env[id.Name] = r.Ret == 1
 							}
+						} else if key, isBool := it.boolKey(fc, x.Lhs[0]); isBool {
+							// a boolean field (`h2.addSep = emitter(...)`)
+							delete(n.Env, key)
+							if r.Ret >= 0 {
+								n.Env[key] = r.Ret == 1
+							}
 						}
 						out = append(out, n)
 					}
 					return dedup(out)
 				}
+			}
+		}
+	}
+	// `flag = emitter(...) || flag`, `flag = a && !b`, …: a boolean expression with side effects or connectives is
+	// evaluated like a condition (short-circuit order, emitter calls executed), each outcome assigned to the flag
+	if len(x.Lhs) == 1 && len(x.Rhs) == 1 && (x.Tok == token.ASSIGN || x.Tok == token.DEFINE) {
+		if key, isBool := it.boolKey(fc, x.Lhs[0]); isBool {
+			compound := false
+			ast.Inspect(x.Rhs[0], func(n ast.Node) bool {
+				switch y := n.(type) {
+				case *ast.BinaryExpr:
+					if y.Op == token.LOR || y.Op == token.LAND {
+						compound = true
+					}
+				case *ast.CallExpr:
+					if fn := it.calleeOf(y); fn != nil {
+						if _, isEm := it.cfg.BufParam[fn]; isEm {
+							compound = true
+						}
+					}
+				}
+				return true
+			})
+			if compound {
+				var out []State
+				id := rootIdent(x.Lhs[0])
+				for _, st := range in {
+					for _, f := range it.evalCond(fc, x.Rhs[0], st) {
+						n := f.St.clone()
+						for k := range n.Env {
+							if k == key || (strings.HasPrefix(k, "pred:") && id != "" && mentions(k, id) && !strings.Contains(key, ".")) {
+								delete(n.Env, k)
+							}
+						}
+						n.Env[key] = f.Val
+						out = append(out, n)
+					}
+				}
+				return dedup(out)
 			}
 		}
 	}
@@ -1238,6 +1396,7 @@ func (it *Interp) applyCall(fc *fctx, call *ast.CallExpr, fn *types.Func, in []S
 					n.G.S = o.S
 					n.G.C += o.DC
 					n.G.K += o.DK
+					n.G.Abs = n.G.Abs || o.Abs
 					if o.NeedGroup {
 						// refuted if the caller established that the value passed is not a group
 						refuted := false
@@ -1249,6 +1408,9 @@ func (it *Interp) applyCall(fc *fctx, call *ast.CallExpr, fn *types.Func, in []S
 							as := exprString(a)
 							for k, v := range st.Env {
 								if strings.HasPrefix(k, "pred:"+as) && strings.Contains(k, "Kind() == ") && strings.HasSuffix(k, "KindGroup") && !v {
+									refuted = true
+								}
+								if strings.HasPrefix(k, "pred:"+as) && strings.Contains(k, "Kind() != ") && strings.HasSuffix(k, "KindGroup") && v {
 									refuted = true
 								}
 							}
@@ -1278,6 +1440,9 @@ func (it *Interp) summary(fn *types.Func, decl *ast.FuncDecl, s int, boolArgs ma
 		return it.memo[key]
 	}
 	it.active[key] = true
+	savedEntry := it.curEntry
+	it.curEntry = key
+	defer func() { it.curEntry = savedEntry }()
 	for round := 0; round < 32; round++ {
 		it.usedActive[key] = false
 		res := it.runFunc(fn, decl, State{G: G{S: s}, Env: boolArgs})
@@ -1288,6 +1453,9 @@ func (it *Interp) summary(fn *types.Func, decl *ast.FuncDecl, s int, boolArgs ma
 		}
 	}
 	delete(it.active, key)
+	if os.Getenv("GLB_EMIT_DEBUG") != "" {
+		fmt.Fprintf(os.Stderr, "summary %s (called from %s) => %+v\n", key, savedEntry, it.memo[key])
+	}
 	it.done[key] = true
 	it.Summaries[key] = it.memo[key]
 	return it.memo[key]
@@ -1315,7 +1483,7 @@ func (it *Interp) runFunc(fn *types.Func, decl *ast.FuncDecl, entry State) []Out
 	fl := it.block(fc, decl.Body.List, []State{st})
 	set := map[Outcome]bool{}
 	add := func(s State, ret int8) {
-		set[Outcome{S: s.G.S, DC: s.G.C, DK: s.G.K, Ret: ret, NeedGroup: s.NeedGroup}] = true
+		set[Outcome{S: s.G.S, DC: s.G.C, DK: s.G.K, Ret: ret, NeedGroup: s.NeedGroup, Abs: s.G.Abs}] = true
 	}
 	for _, r := range fl.returns {
 		add(r.St, r.Ret)
